@@ -240,6 +240,26 @@ def run(tier, seed, replay):
             rL = qutip.steadystate(Lq).full()
             if np.abs(rL - ref).max() > 1e-6:
                 v("agreement:liouvillian-input", f"steadystate(L) for a {kind} system differs from the null vector by {np.abs(rL - ref).max():.1e}", {"system": kind})
+            # the same generator given in every way the signature allows: Liouvillian only, Liouvillian of the Hamiltonian
+            # plus all collapse operators, Liouvillian with some of them plus the rest
+            if len(c) >= 1:
+                splits = [("L(H) + all c_ops", qutip.liouvillian(H), list(c))]
+                if len(c) >= 2:
+                    splits.append(("L(H, some c_ops) + the other c_ops", qutip.liouvillian(H, c[:1]), list(c[1:])))
+                for sname, Lpart, crest in splits:
+                    for meth in ("direct", "eigen", "svd", "power"):
+                        for fmt_ in ("csr", "dense"):
+                            try:
+                                with warnings.catch_warnings():
+                                    warnings.simplefilter("ignore")
+                                    rS = qutip.steadystate(Lpart.to(fmt_), crest, method=meth).full()
+                            except Exception as e:      # noqa
+                                rep.count("split-raises=" + type(e).__name__)
+                                continue
+                            rep.evaluations += 1
+                            rep.count("generator-split")
+                            if np.abs(rS - ref).max() > 1e-5:
+                                v(f"agreement:split:{meth}", f"steadystate({sname}, method={meth}, {fmt_}) for a {kind} system differs from the steady state of the whole generator by {np.abs(rS - ref).max():.1e}", {"system": kind, "method": meth, "split": sname})
             gap = -np.sort(np.linalg.eigvals(Lm).real)[-2]
             if gap > 0.05:
                 T = 25.0 / gap
